@@ -633,16 +633,14 @@ impl ZiPatch {
                                         .truncate(false)
                                         .open(&file_path);
 
-                                    if let Ok(mut file) = new_file {
-                                        if fop.offset == 0 {
-                                            file.set_len(0)?;
-                                        }
-
-                                        file.seek(SeekFrom::Start(fop.offset))?;
-                                        file.write_all(&data)?;
-                                    } else {
-                                        warn!("{file_path} does not exist, skipping.");
+                                    // A file that cannot be created or opened is a failed patch, not a success
+                                    let mut file = new_file?;
+                                    if fop.offset == 0 {
+                                        file.set_len(0)?;
                                     }
+
+                                    file.seek(SeekFrom::Start(fop.offset))?;
+                                    file.write_all(&data)?;
                                 }
                                 SqpkFileOperation::DeleteFile => {
                                     if fs::remove_file(file_path.as_str()).is_err() {
